@@ -351,13 +351,28 @@ def make_modules(sim):
     class Queue:
         def __init__(self, maxsize=0):
             self.queue = collections.deque()
+            self.maxsize = maxsize
+
+        def full(self):
+            return 0 < self.maxsize <= len(self.queue)
 
         def put(self, x, block=True, timeout=None):
-            sim._yield(("queue.put", id(self)))
+            if self.maxsize and self.maxsize > 0:
+                # a bounded queue: put() blocks while it is full (queue.Queue semantics), Full for a non-blocking / timed-out put
+                if not block:
+                    sim._yield(("queue.put_nowait", id(self)))
+                    if self.full():
+                        raise Full()
+                else:
+                    ok = sim._yield(("queue.put", id(self)), cond=lambda: not self.full(), timeout=timeout)
+                    if self.full():
+                        raise Full()
+            else:
+                sim._yield(("queue.put", id(self)))
             self.queue.append(x)
 
         def put_nowait(self, x):
-            self.put(x)
+            self.put(x, block=False)
 
         def get(self, block=True, timeout=None):
             if not block:
